@@ -10,6 +10,8 @@
 import LiteFSVerif.Proofs.Engine
 import LiteFSVerif.Gen.Facts
 import LiteFSVerif.Proofs.ApplyBytes
+import LiteFSVerif.Gen.Skel
+import LiteFSVerif.Model.ExpectedSkel
 
 set_option linter.unusedSimpArgs false
 
@@ -121,5 +123,13 @@ theorem C07_wal_remove_frame (s s' : Eng) (h : removeWAL s = .ok s') :
     between the frame writes and the release of the write lock) is refused, not published -/
 theorem C07_mid_transaction (s s' : Eng) (hw : s.writeable = false) (h : commitWALBody s = .ok s') : s' = s :=
   commitWAL_lost_authority s s' hw h
+
+/-- the control skeletons (branch conditions, loop heads, returns, order of calls and of state
+    assignments) of `DB.TruncateDatabase`, regenerated from the current source on every run, are the ones the
+    model was written and validated against (Model/ExpectedSkel.lean): a reordered, dropped or
+    altered check or call in these functions breaks this theorem -/
+theorem C07_source_skeletons :
+    Gen.Skel.DB_TruncateDatabase = Expected.Skel.DB_TruncateDatabase :=
+  rfl
 
 end LiteFSVerif.C07
